@@ -260,6 +260,32 @@ def main(tier):
             if len(samples) < 6:
                 k = int(np.nonzero(isb)[0][h])
                 samples.append(dict(query=_show(Q[seq[k]], S, fnname.get(int(Q[seq[k]]['fn']), '?')), result=_cshow(can[k]), history=h, position=k, env=env, config=config))
+        # ---- (2a) a legacy host: the five deprecated switches (SetHardExit ... GetErrorMessages) in between ordinary queries.  They may write their
+        #           deprecation notice to stderr and keep a "notice given" flag; nothing else of the process may change (stdout bytes, the buffering of
+        #           the host's streams, locale, descriptors ...) and the queries around them answer as in a fresh process
+        if flavour == 'plain':
+            leg = np.zeros(5, execlib.REQ); leg['fn'] = np.arange(2011, 2016); leg['s'] = -1
+            qs = rng.choice(bidx, 400)
+            qs = qs[np.array([int(Q[q]['fn']) < 2000 for q in qs])]
+            parts = np.array_split(qs, 6)
+            seqreq = np.concatenate([Q[parts[0]]] + [x for k_ in range(5) for x in (leg[k_:k_ + 1], leg[k_:k_ + 1], Q[parts[k_ + 1]])])
+            resp, msgs, rep = P.run(seqreq, S, {})
+            if resp is None:
+                ck.violation('crash:legacy-history', 'history with the deprecated switches died', dict(info=rep, config=config))
+            else:
+                _check_report(ck, rep, 'history', config, legacy=True)
+                totals['deprecated_calls'] = totals.get('deprecated_calls', 0) + rep.get('deprecated_calls', 0); totals['evals'] += len(seqreq)
+                can = canon(resp, msgs); pos = 0
+                order = [parts[0]] + [y for k_ in range(5) for y in (None, None, parts[k_ + 1])]
+                for blk in order:
+                    if blk is None:
+                        pos += 1; continue
+                    for q in blk:
+                        if can[pos] != baseline[int(q)]:
+                            fn = fnname.get(int(Q[int(q)]['fn']), '?')
+                            ck.violation('c16:history-dependent-result:%s' % fn, '%s returns a different result after the deprecated switches were called than as first call of a fresh process' % fn,
+                                         dict(request=_show(Q[int(q)], S, fn), fresh=_cshow(baseline[int(q)]), in_history=_cshow(can[pos]), config=config, predecessor='deprecated switches'))
+                        pos += 1
         # ---- (2b) long run: state that only goes wrong after MANY calls (a 15/16-bit counter that wraps, a memo that fills up, a slot per N-th
         #           error): blocks of 70000 immediate repetitions of one baseline query - success and failure paths of the common entry
         #           points - each followed by a sample of all baseline queries; everything compared with the fresh-process baseline
@@ -366,13 +392,15 @@ def main(tier):
                     'is run as the only call of a fresh process, then re-observed inside seeded random histories (with/without XRayInit, C and comma-decimal '
                     'locale) and compared bit for bit (status, code, message, values); writable library segments hashed before/after; locale, cwd, '
                     'stdout/stderr bytes and kept error objects re-checked; distinct = baseline queries re-observed identically after >= 2 different predecessor functions',
-               samples=samples, fresh_process_baselines=totals['fresh'], library_loads_observed_by_the_load_monitor=totals['loads'], histories_in_a_directed_rounding_mode=totals.get('histories_in_a_directed_rounding_mode', 0), long_run_calls=totals.get('long_run_calls', 0), long_run_blocks_of_repetitions=totals.get('long_run_blocks', 0), histories=totals['histories'], histories_on_the_project_build=totals.get('histories_on_the_project_build', 0), history_length=hlen,
+               samples=samples, fresh_process_baselines=totals['fresh'], library_loads_observed_by_the_load_monitor=totals['loads'], histories_in_a_directed_rounding_mode=totals.get('histories_in_a_directed_rounding_mode', 0), deprecated_switch_calls=totals.get('deprecated_calls', 0), long_run_calls=totals.get('long_run_calls', 0), long_run_blocks_of_repetitions=totals.get('long_run_blocks', 0), histories=totals['histories'], histories_on_the_project_build=totals.get('histories_on_the_project_build', 0), history_length=hlen,
                queries_reobserved=len(totals['reobserved']), hashed_bytes_per_history=totals['hashed_bytes'], error_objects_kept_and_recompared=totals['errors_kept'])
     return ck.finish(cov, ['library linked shared with -z now so that lazy binding does not rewrite the GOT', 'puremon harness, numpy'])
 
 
-def _check_report(ck, rep, where, config, fresh=False):
+def _check_report(ck, rep, where, config, fresh=False, legacy=False):
     w = where.split(':')[0]
+    if legacy:          # the deprecated switches may keep a flag and print their notice on stderr
+        rep = dict(rep, h1=rep['h0'], stderr_bytes=max(0, rep['stderr_bytes'] - rep.get('deprecation_notice_bytes', 0)))
     if rep['h0'] != rep['h1']:
         ck.violation('c16:writable-segment-changed:%s' % where if fresh else 'c16:writable-segment-changed:history',
                      'hash of the library\'s writable memory changed across read-only queries', dict(report=rep, config=config, where=where))
